@@ -19,6 +19,7 @@ type blob struct {
 	id     int
 	raw    bool // contains caller text spliced through an innerxml field
 	indent bool // produced by MarshalIndent
+	zip    *zipRec // the blob is a recorded ZIP archive, not XML
 	tokens []xtok
 }
 
